@@ -30,6 +30,7 @@ def _solve_one(args):
     r = z3.unknown
     backend = "z3"
     res = "unknown"
+    has_quant = "forall" in f.sexpr() or "exists" in f.sexpr()
     model = None
     smt2 = None
     for k, (opts, ms) in enumerate(configs):
@@ -42,15 +43,23 @@ def _solve_one(args):
             r = s.check()
         except z3.Z3Exception as e:  # pragma: no cover
             return idx, "error:" + str(e)[:200], time.time() - t0, None, "z3"
-        if r != z3.unknown:
+        if r == z3.unsat:
             backend = "z3" if k == 0 else f"z3[{k}]"
-            res = str(r)
-            if r == z3.sat and want_model:
-                try:
-                    model = extract_model(ob, s.model())
-                except Exception as e:  # pragma: no cover
-                    model = {"__error__": str(e)[:200]}
+            res = "unsat"
+            model = None
             break
+        if r == z3.sat:
+            # a model of a *quantified* VC is only a candidate (instantiation-based reasoning is incomplete in
+            # both directions in practice): keep it, but let the other strategies try to prove the VC
+            if res != "sat":
+                backend = "z3" if k == 0 else f"z3[{k}]"
+                res = "sat"
+                if want_model:
+                    try:
+                        model = extract_model(ob, s.model())
+                    except Exception as e:  # pragma: no cover
+                        model = {"__error__": str(e)[:200]}
+            break      # replay on the real code decides whether the counter-model is genuine
         if k == 0:
             # second back end right after the first failed attempt: cvc5 on the same text.  Only `unsat` is
             # taken from it (a `sat` on a quantified VC is not a trusted refutation; replay decides).
@@ -58,7 +67,7 @@ def _solve_one(args):
                 smt2 = s.to_smt2()
                 res2 = run_cvc5(smt2, max(3, first // 1000))
                 if res2 == "unsat":
-                    res, backend = "unsat", "cvc5"
+                    res, backend, model = "unsat", "cvc5", None
                     break
             except Exception:
                 pass
